@@ -1063,4 +1063,126 @@ example : UniqueImage (⟨⟨⟨4, 0, 0⟩, ⟨2, 4, 0⟩, ⟨0, 0, 4⟩⟩, tru
 example : ((⟨⟨⟨4, 0, 0⟩, ⟨2, 4, 0⟩, ⟨0, 0, 4⟩⟩, true, true, true⟩ : Cell ℚ).frame ⟨⟨0, 0, 1⟩, ⟨0, -1, 0⟩, ⟨1, 0, 0⟩⟩).vects
     = ⟨⟨0, 0, 4⟩, ⟨0, -4, 2⟩, ⟨4, 0, 0⟩⟩ := by decide +kernel
 
+
+/-! ### the three box vectors listed in another order (same lattice, same periodic directions) -/
+
+/-- the cell with its first two box vectors (and their periodicity flags) exchanged. -/
+def Cell.swap01 (c : Cell K) : Cell K := ⟨⟨c.vects.r1, c.vects.r0, c.vects.r2⟩, c.py, c.px, c.pz⟩
+/-- the cell with its last two box vectors (and their periodicity flags) exchanged. -/
+def Cell.swap12 (c : Cell K) : Cell K := ⟨⟨c.vects.r0, c.vects.r2, c.vects.r1⟩, c.px, c.pz, c.py⟩
+
+def sw01 (s : Shift) : Shift := (s.2.1, s.1, s.2.2)
+def sw12 (s : Shift) : Shift := (s.1, s.2.2, s.2.1)
+
+theorem mem_cands_sw01 (px py pz : Bool) : ∀ t ∈ cands px py pz, sw01 t ∈ cands py px pz := by
+  cases px <;> cases py <;> cases pz <;> decide
+theorem mem_cands_sw12 (px py pz : Bool) : ∀ t ∈ cands px py pz, sw12 t ∈ cands px pz py := by
+  cases px <;> cases py <;> cases pz <;> decide
+
+theorem shiftBy_sw01 (V : M3 K) (d : V3 K) (t : Shift) :
+    shiftBy (⟨V.r1, V.r0, V.r2⟩ : M3 K) d (sw01 t) = shiftBy V d t := by
+  ext <;> simp only [shiftBy, sw01] <;> ring
+theorem shiftBy_sw12 (V : M3 K) (d : V3 K) (t : Shift) :
+    shiftBy (⟨V.r0, V.r2, V.r1⟩ : M3 K) d (sw12 t) = shiftBy V d t := by
+  ext <;> simp only [shiftBy, sw12] <;> ring
+
+theorem uniqueImage_swap01 (c : Cell K) (a b : V3 K) (h : UniqueImage c a b) : UniqueImage c.swap01 a b := by
+  obtain ⟨s, hs, hmin⟩ := h
+  refine ⟨sw01 s, mem_cands_sw01 _ _ _ s hs, ?_⟩
+  intro t ht
+  have ht' := mem_cands_sw01 _ _ _ t ht
+  have e : t = sw01 (sw01 t) := rfl
+  simp only [Cell.swap01]
+  rw [e, shiftBy_sw01, shiftBy_sw01]
+  exact hmin _ ht'
+
+theorem uniqueImage_swap12 (c : Cell K) (a b : V3 K) (h : UniqueImage c a b) : UniqueImage c.swap12 a b := by
+  obtain ⟨s, hs, hmin⟩ := h
+  refine ⟨sw12 s, mem_cands_sw12 _ _ _ s hs, ?_⟩
+  intro t ht
+  have ht' := mem_cands_sw12 _ _ _ t ht
+  have e : t = sw12 (sw12 t) := rfl
+  simp only [Cell.swap12]
+  rw [e, shiftBy_sw12, shiftBy_sw12]
+  exact hmin _ ht'
+
+theorem dvCell_of_unique (c : Cell K) (a b : V3 K) (s : Shift) (hs : s ∈ cands c.px c.py c.pz)
+    (hmin : ∀ t ∈ cands c.px c.py c.pz, shiftBy c.vects (b - a) t = shiftBy c.vects (b - a) s ∨
+      V3.normSq (shiftBy c.vects (b - a) s) < V3.normSq (shiftBy c.vects (b - a) t)) :
+    c.dv a b = shiftBy c.vects (b - a) s :=
+  dvect_eq_of_strict_min c.vects c.px c.py c.pz a b s hs hmin
+
+/-- **dvCell_swap01 / dvCell_swap12.**  Listing the box vectors in another order changes the order in which the loops
+    of `dvect_c` visit the candidate images, not the result — wherever the image is decided. -/
+theorem dvCell_swap01 (c : Cell K) (a b : V3 K) (h : UniqueImage c a b) : c.swap01.dv a b = c.dv a b := by
+  obtain ⟨s, hs, hmin⟩ := h
+  have h' := uniqueImage_swap01 c a b ⟨s, hs, hmin⟩
+  rw [dvCell_of_unique c a b s hs hmin]
+  have hs' : sw01 s ∈ cands c.swap01.px c.swap01.py c.swap01.pz := mem_cands_sw01 _ _ _ s hs
+  rw [dvCell_of_unique c.swap01 a b (sw01 s) hs' ?_]
+  · simp only [Cell.swap01]; exact shiftBy_sw01 _ _ _
+  · intro t ht
+    have ht' := mem_cands_sw01 _ _ _ t ht
+    have e : t = sw01 (sw01 t) := rfl
+    simp only [Cell.swap01]
+    rw [e, shiftBy_sw01, shiftBy_sw01]
+    exact hmin _ ht'
+
+theorem dvCell_swap12 (c : Cell K) (a b : V3 K) (h : UniqueImage c a b) : c.swap12.dv a b = c.dv a b := by
+  obtain ⟨s, hs, hmin⟩ := h
+  rw [dvCell_of_unique c a b s hs hmin]
+  have hs' : sw12 s ∈ cands c.swap12.px c.swap12.py c.swap12.pz := mem_cands_sw12 _ _ _ s hs
+  rw [dvCell_of_unique c.swap12 a b (sw12 s) hs' ?_]
+  · simp only [Cell.swap12]; exact shiftBy_sw12 _ _ _
+  · intro t ht
+    have ht' := mem_cands_sw12 _ _ _ t ht
+    have e : t = sw12 (sw12 t) := rfl
+    simp only [Cell.swap12]
+    rw [e, shiftBy_sw12, shiftBy_sw12]
+    exact hmin _ ht'
+
+/-- the reversal `a, b, c ↦ c, b, a` (with the Cartesian reversal of `frame_equivariant` it turns a LAMMPS-style
+    lower-triangular cell into an upper-triangular one). -/
+theorem dvCell_reversed (c : Cell K) (a b : V3 K) (h : UniqueImage c a b) :
+    c.swap01.swap12.swap01.dv a b = c.dv a b := by
+  have h1 := uniqueImage_swap01 c a b h
+  have h2 := uniqueImage_swap12 _ a b h1
+  rw [dvCell_swap01 _ a b h2, dvCell_swap12 _ a b h1, dvCell_swap01 c a b h]
+
+/-- **rows_reordered.**  Displacement, differential displacement and slip vector do not depend on the order in which
+    the box vectors are listed (generators: exchange of the first two / the last two vectors with their flags), wherever
+    the images are decided. -/
+theorem rows_reordered (c0 c1 : Cell K) (pos0 pos1 : Nat → V3 K) (nbrs : List Nat) (i j : Nat)
+    (hd : UniqueImage c1 (pos0 i) (pos1 i))
+    (h0 : UniqueImage c0 (pos0 i) (pos0 j)) (h1 : UniqueImage c1 (pos1 i) (pos1 j))
+    (hs : ∀ k ∈ nbrs, UniqueImage c0 (pos0 i) (pos0 k) ∧ UniqueImage c0 (pos1 i) (pos1 k)) :
+    (displacement c1.swap01 pos0 pos1 i = displacement c1 pos0 pos1 i ∧
+     displacement c1.swap12 pos0 pos1 i = displacement c1 pos0 pos1 i) ∧
+    (ddvector c0.swap01 c1.swap01 pos0 pos1 i j = ddvector c0 c1 pos0 pos1 i j ∧
+     ddvector c0.swap12 c1.swap12 pos0 pos1 i j = ddvector c0 c1 pos0 pos1 i j) ∧
+    (slipVector c0.swap01 pos0 pos1 nbrs i = slipVector c0 pos0 pos1 nbrs i ∧
+     slipVector c0.swap12 pos0 pos1 nbrs i = slipVector c0 pos0 pos1 nbrs i) := by
+  refine ⟨⟨?_, ?_⟩, ⟨?_, ?_⟩, ⟨?_, ?_⟩⟩
+  · simp only [displacement]; exact dvCell_swap01 c1 _ _ hd
+  · simp only [displacement]; exact dvCell_swap12 c1 _ _ hd
+  · simp only [ddvector, dvCell_swap01 c1 _ _ h1, dvCell_swap01 c0 _ _ h0]
+  · simp only [ddvector, dvCell_swap12 c1 _ _ h1, dvCell_swap12 c0 _ _ h0]
+  · unfold slipVector
+    apply foldl_congr_mem
+    intro acc k hk
+    simp only [slipStep, dvCell_swap01 c0 _ _ (hs k hk).1, dvCell_swap01 c0 _ _ (hs k hk).2]
+  · unfold slipVector
+    apply foldl_congr_mem
+    intro acc k hk
+    simp only [slipStep, dvCell_swap12 c0 _ _ (hs k hk).1, dvCell_swap12 c0 _ _ (hs k hk).2]
+
+/-- non-vacuity / sharpness: with a TIE between two images the order of the box vectors does decide which one the loops
+    keep (so the hypothesis `UniqueImage` cannot be dropped). -/
+example : (⟨⟨⟨4, 0, 0⟩, ⟨2, 4, 0⟩, ⟨0, 0, 4⟩⟩, true, true, false⟩ : Cell ℚ).dv ⟨0, 0, 0⟩ ⟨3, 2, 0⟩ = ⟨-1, 2, 0⟩ ∧
+    (⟨⟨⟨4, 0, 0⟩, ⟨2, 4, 0⟩, ⟨0, 0, 4⟩⟩, true, true, false⟩ : Cell ℚ).swap01.dv ⟨0, 0, 0⟩ ⟨3, 2, 0⟩ = ⟨1, -2, 0⟩ := by
+  decide +kernel
+/-- ... and a decided pair through the boundary of the same tilted cell satisfies the hypothesis. -/
+example : UniqueImage (⟨⟨⟨4, 0, 0⟩, ⟨2, 4, 0⟩, ⟨0, 0, 4⟩⟩, true, true, false⟩ : Cell ℚ) ⟨0, 0, 0⟩ ⟨3, 3, 0⟩ :=
+  ⟨(0, -1, 0), by decide +kernel, by decide +kernel⟩
+
 end Atomman.C17
